@@ -29,6 +29,14 @@
               total_seconds().
   C08.TICK    the T of a tick is the coordinator's window end, advanced exactly once per tick also when
               a series fails (per-tick rules of the C07 checker, re-reported here).
+  C08.SINK    what is emitted IS what the helper computed: on every path of the per-series tick function
+              (_StreamingHelper.resample) - normal, raising, inside an exception handler - each call of the
+              sink (the attribute the constructor stores its `Sink` parameter in) is handed exactly the
+              value of `<helper>.resample(T)` evaluated on that path, at most once; no other function of
+              the module calls a sink.  EDGE / AGE / NONE are proved for the helper's return value only:
+              a sample that reaches the sink by another route (a placeholder on the source-stopped path, a
+              default substituted for None, a cached value re-sent, a sample sent by the coordinator's
+              error handling) is outside all of them.
 """
 from __future__ import annotations
 
@@ -38,13 +46,14 @@ from typing import Any
 
 from ..engine.normalize import inline_helpers, positional
 from ..engine.report import AnalysisError, Run
-from ..engine.resolver import FuncInfo, Program, body_walk
-from ..engine.sympath import Path, follower, sym_block, sym_paths
+from ..engine.resolver import ClassInfo, FuncInfo, Program, body_walk, parent_map
+from ..engine.sympath import Path, SymExec, follower, sym_block, sym_paths
 from ..engine.terms import Poly, TermEval
 from ..engine.util import find_calls, method_call, u
 
 MOD = "timeseries._resampling"
 HELPER = f"{MOD}:_ResamplingHelper"
+STREAM = f"{MOD}:_StreamingHelper"
 
 
 BUF = "self._buffer"
@@ -801,6 +810,133 @@ def check_unit(run: Run, prog: Program) -> None:
                               "before the max_age factor and the ceil are applied", node=n, file=f.file)
 
 
+# ---------------------------------------------------------------------------------------------- C08.SINK
+def _role_attrs(cls: ClassInfo, annotation: str, fallback: str) -> set[str]:
+    """Attributes of `self` in which the constructor of `cls` stores the parameter annotated `annotation`
+    (or, without annotations, the parameter named `fallback`)."""
+    init = cls.methods.get("__init__")
+    if init is None:
+        raise AnalysisError(f"{cls.qual}: no constructor (the sink / helper attributes cannot be bound by role)")
+    a = init.node.args
+    params = a.posonlyargs + a.args + a.kwonlyargs
+
+    def ann(e: ast.AST | None) -> str:
+        return u(e).strip("'\"").split("[")[0].split(".")[-1] if e is not None else ""
+
+    names = {p.arg for p in params if ann(p.annotation) == annotation} or {p.arg for p in params if p.arg == fallback}
+    out: set[str] = set()
+    for s in ast.walk(init.node):
+        if isinstance(s, (ast.Assign, ast.AnnAssign)) and isinstance(s.value, ast.Name) and s.value.id in names:
+            for t in (s.targets if isinstance(s, ast.Assign) else [s.target]):
+                if isinstance(t, ast.Attribute) and u(t.value) == "self":
+                    out.add(t.attr)
+    return out
+
+
+_SINK_MSG = ("EDGE / AGE / NONE hold for the value `_ResamplingHelper.resample(T)` returns, so the emitted value is the "
+             "resampling function applied to the relevant received samples (None exactly when there are none) only if "
+             "that value - and nothing else - is what the sink receives for tick T.  Typical instance: a placeholder "
+             "`Sample(T, None)` sent when the source has stopped, although the samples it delivered are still stamped "
+             "inside (T - max_age*period, T].  Excluded alike: a default / last value substituted for None, a cached "
+             "sample re-sent, a second sample for the same tick, a sample sent from an exception handler or from the "
+             "coordinator's error handling.")
+
+
+def check_sink(run: Run, prog: Program) -> None:  # noqa: C901
+    cls = prog.cls(STREAM)
+    sinks = _role_attrs(cls, "Sink", "sink")
+    helpers = _role_attrs(cls, "_ResamplingHelper", "helper")
+    if not sinks or not helpers:
+        raise AnalysisError(f"{cls.qual}: the attribute holding the {'sink' if not sinks else 'resampling helper'} "
+                            "was not found in the constructor")
+    sh = prog.func(f"{STREAM}.resample")
+    run.analysed(sh.qual)
+    if len(sh.params) < 2:
+        raise AnalysisError(f"{sh.qual}: no tick timestamp parameter")
+    T = sh.params[1]
+    sink_texts = {f"self.{a}" for a in sinks}
+
+    def is_sink(c: ast.Call) -> bool:
+        return u(c.func) in sink_texts
+
+    def is_tick(c: ast.Call) -> bool:
+        return any(method_call(c, f"self.{h}", "resample") for h in helpers)
+
+    # ---- (a) every path of the per-series tick function, private helpers executed on the path
+    node = inline_helpers(prog, sh)
+    body = list(node.body)
+    if body and isinstance(body[0], ast.Expr) and isinstance(body[0].value, ast.Constant) and isinstance(body[0].value.value, str):
+        body = body[1:]
+    se = SymExec(follow=follower(prog, sh))
+    paths = [p for p, _st in se.block(Path(), body)]
+    if not paths:
+        raise AnalysisError(f"{sh.qual}: no path found")
+    emitting = 0
+    for p in paths:
+        sent = p.calls(is_sink)
+        ticks = {u(h.node) for h in p.calls(is_tick)
+                 if len(h.node.args) + len(h.node.keywords) == 1  # type: ignore[attr-defined]
+                 and u(positional(h.node, ["timestamp"]).get("timestamp")) == T}  # type: ignore[arg-type]
+        kind = "raising" if p.exit == "raise" else "normal"
+        if any(k[0] == "except" for k, *_ in p.conds if isinstance(k, tuple)):
+            kind += ", in an exception handler"
+        for s in sent:
+            c = s.node
+            assert isinstance(c, ast.Call)
+            ok = not c.keywords and len(c.args) == 1 and u(c.args[0]) in ticks
+            emitting += ok
+            run.check(ok, "C08.SINK", sh.qual, u(c)[:120],
+                      f"on a {kind} path of the tick the sink is handed `{u(c.args[0])[:80] if c.args else ''}`, which is not the "
+                      f"value of `self.{sorted(helpers)[0]}.resample({T})` computed on that path: " + _SINK_MSG,
+                      node=sh.node, file=sh.file, path=p.describe(),
+                      instance=f"{sh.qual}: the sink receives the helper's sample for {T} [{kind} path]")
+        if len(sent) > 1:
+            run.violation("C08.SINK", sh.qual, f"{len(sent)} sink calls on one path",
+                          f"the sink is called {len(sent)} times on one path of a tick: more than one sample is emitted for "
+                          f"tick {T}. " + _SINK_MSG, node=sh.node, file=sh.file, path=p.describe())
+    # ---- (b) census: no sink call outside what (a) has walked
+    covered = {sh.name} | set(getattr(node, "_spliced", ())) | set(se.followed)
+    mod = sh.module
+    funcs = list(mod.functions.values()) + [m for c in mod.classes.values() for m in c.methods.values()]
+    seen_sites = 0
+    for f in funcs:
+        aliases = {t.id for st in ast.walk(f.node) if isinstance(st, (ast.Assign, ast.AnnAssign))
+                   and isinstance(st.value, ast.Attribute) and st.value.attr in sinks
+                   for t in (st.targets if isinstance(st, ast.Assign) else [st.target]) if isinstance(t, ast.Name)}
+        fa = f.node.args
+        aliases |= {p.arg for p in fa.posonlyargs + fa.args + fa.kwonlyargs if p.annotation is not None
+                    and u(p.annotation).strip("'\"").split("[")[0].split(".")[-1] == "Sink"}
+        sites = [c for c in ast.walk(f.node) if isinstance(c, ast.Call) and (
+            (isinstance(c.func, ast.Attribute) and c.func.attr in sinks)
+            or (isinstance(c.func, ast.Name) and c.func.id in aliases))]
+        if not sites:
+            continue
+        inside = f is sh or (f.name in covered and f.name != sh.name and (f.cls is cls or f.cls is None))
+        if not inside:
+            for c in sites:
+                run.violation("C08.SINK", f.qual, u(c)[:120],
+                              f"a sink is called in {f.qual}, outside the per-series tick function {sh.qual} and the private "
+                              "helpers it runs: this sample does not come from the resampling helper's tick. " + _SINK_MSG,
+                              node=c, file=f.file)
+            continue
+        parents = parent_map(f.node)
+        for c in sites:
+            seen_sites += 1
+            up, hidden = parents.get(c), None
+            while up is not None and up is not f.node:
+                if isinstance(up, (ast.For, ast.AsyncFor, ast.While, ast.ListComp, ast.SetComp, ast.DictComp,
+                                   ast.GeneratorExp, ast.Lambda, ast.FunctionDef, ast.AsyncFunctionDef)):
+                    hidden = up
+                up = parents.get(up)
+            if hidden is not None:
+                raise AnalysisError(f"{f.qual}: the sink is called inside a {type(hidden).__name__} (line "
+                                    f"{getattr(c, 'lineno', 0)}); the per-path rule C08.SINK cannot tie its argument to the "
+                                    "helper's sample for the tick")
+    if not emitting and not run.violations:
+        raise AnalysisError(f"{sh.qual}: no path hands the helper's sample to the sink (sink attribute(s): {sorted(sinks)})")
+    if not seen_sites:
+        raise AnalysisError(f"{sh.qual}: no call site of the sink found in the tick function or its helpers")
+
 
 CONTROLS = [
     ("bisect_left on the lower edge", MOD,
@@ -830,6 +966,17 @@ CONTROLS = [
      "                config.resampling_period.total_seconds()\n                / input_sampling_period.total_seconds()",
      "                config.resampling_period.seconds\n                / input_sampling_period.total_seconds()", "C08.UNIT"),
     ("sample not counted", MOD, "        self._source_properties.received_samples += 1\n", "", "C08.EST"),
+    ("placeholder sample on the source-stopped path", MOD,
+     "            raise SourceStoppedError(self._source)\n",
+     "            await self._sink(Sample(timestamp, None))\n            raise SourceStoppedError(self._source)\n", "C08.SINK"),
+    ("None replaced by a default before the sink", MOD,
+     "        await self._sink(self._helper.resample(timestamp))\n",
+     "        new_sample = self._helper.resample(timestamp)\n        if new_sample.value is None:\n"
+     "            new_sample = Sample(timestamp, Quantity(0.0))\n        await self._sink(new_sample)\n", "C08.SINK"),
+    ("sink called from the coordinator", MOD,
+     "        self._resamplers[source] = resampler\n",
+     "        self._resamplers[source] = resampler\n        asyncio.ensure_future(sink(Sample(self._window_end, None)))\n"
+     "        asyncio.ensure_future(resampler._sink(Sample(self._window_end, None)))\n", "C08.SINK"),
 ]
 
 
@@ -862,6 +1009,7 @@ def run_rules(run: Run, prog: Program) -> None:
     check_fresh(run, prog)
     check_unit(run, prog)
     check_tick(run, prog)
+    check_sink(run, prog)
 
 
 def check(run: Run, prog: Program, tier: str) -> str:
@@ -878,7 +1026,10 @@ def check(run: Run, prog: Program, tier: str) -> str:
              "the buffer sizing or the resampling function read it (one value of the estimate per tick)")
     run.rule("C08.UNIT", "durations are converted whole (total_seconds()): no timedelta component field, no truncation "
              "to whole seconds, in the resampling module")
+    run.rule("C08.SINK", "on every path of the per-series tick (normal, raising, handler) the sink is handed exactly the "
+             "helper's sample for T, at most once; no other function of the module calls a sink")
     run_rules(run, prog)
+    run.floor("C08.SINK", 1)
     run.floor("C08.FRESH", 2)
     run.floor("C08.UNIT", 4)
     run.floor("C08.EDGE", 4)
